@@ -1026,6 +1026,56 @@ func (c *Ctx) flagPrinterObligations(et *enumTables, first, last *enumConst, lo 
 				o.Detail = fmt.Sprintf("for %s := %s; %s <= %s; %s <<= 1 { append(%s.String()) }", mv, first.Name, mv, last.Name, mv, mv)
 			}
 			obs = append(obs, o)
+			// the empty set is tested first, on the unmodified parameter
+			oz := Obligation{Key: fmt.Sprintf("%s set printer %s tests the empty set on the set to print", key, funcKey(fn)), Pos: c.pos(fd.Pos()), Verdict: VIOL,
+				Detail: "no `if " + param + " == <zero member> { return … }` at the top level: the empty set is printed as the empty string, which is not a keyword"}
+			pobj := sig.Params().At(0)
+			modified := token.NoPos
+			if _, hasZero := et.S[0]; !hasZero {
+				// no keyword for the empty set (AllocKind): the empty set is outside the printable domain
+				oz.Verdict, oz.Detail = OK, "the enum declares no keyword for the empty set; nothing to test"
+				obs = append(obs, oz)
+				return
+			}
+			for _, st := range fd.Body.List {
+				if is, ok := st.(*ast.IfStmt); ok && is.Init == nil {
+					if be, ok := is.Cond.(*ast.BinaryExpr); ok && be.Op == token.EQL {
+						x, y := unparen(be.X), unparen(be.Y)
+						if id, ok := y.(*ast.Ident); ok && info.ObjectOf(id) == pobj {
+							x, y = y, x
+						}
+						id, isParam := x.(*ast.Ident)
+						tv := info.Types[y]
+						if isParam && info.ObjectOf(id) == pobj && tv.Value != nil && constant.Sign(constant.ToInt(tv.Value)) == 0 && len(is.Body.List) > 0 {
+							if _, ok := is.Body.List[len(is.Body.List)-1].(*ast.ReturnStmt); ok {
+								if modified != token.NoPos {
+									oz.Pos = c.pos(modified)
+									oz.Detail = "the parameter is modified before the empty-set test: a non-empty set whose members were all removed by then is printed as the zero keyword and reads back as the empty set"
+								} else {
+									oz.Verdict, oz.Pos, oz.Detail = OK, c.pos(is.Pos()), "first use of the parameter; nothing is collected or cleared before it"
+								}
+								break
+							}
+						}
+					}
+				}
+				ast.Inspect(st, func(m ast.Node) bool {
+					switch m := m.(type) {
+					case *ast.AssignStmt:
+						for _, l := range m.Lhs {
+							if id, ok := unparen(l).(*ast.Ident); ok && info.ObjectOf(id) == pobj && modified == token.NoPos {
+								modified = m.Pos()
+							}
+						}
+					case *ast.IncDecStmt:
+						if id, ok := unparen(m.X).(*ast.Ident); ok && info.ObjectOf(id) == pobj && modified == token.NoPos {
+							modified = m.Pos()
+						}
+					}
+					return true
+				})
+			}
+			obs = append(obs, oz)
 		})
 	}
 	if !found {
